@@ -51,6 +51,7 @@ def main():
         "engines": [
             {"name": "tlc-model", "path": "spec/mc", "serves_properties": sorted(k for k in PLAN if PLAN[k].get("models")), "kind_free_text": "TLC model checking of the TLA+ specification (bounded constants, exhaustive)"},
             {"name": "tlc-trace", "path": "spec/Trace.tla", "serves_properties": sorted(PLAN), "kind_free_text": "TLC trace validation: total monitor evaluating every property predicate on every recorded event"},
+            {"name": "tlc-model+tlc-trace", "path": "check", "serves_properties": sorted(PLAN), "kind_free_text": "the pipeline ./check runs for a property: tlc-model on the specification, rust-harness to record executions of /repo (drivers, TLC-generated scenarios), tlc-trace to validate every recorded event"},
             {"name": "rust-harness", "path": "harness", "serves_properties": sorted(PLAN), "kind_free_text": "records executions of the real libmctp (seeded drivers, TLC-generated scenarios, replay files)"},
         ],
         "checks": checks,
